@@ -154,3 +154,48 @@ def all_neg(s: 'Seq[Val]', p: 'Expr', v: 'Str', rho: 'Env') -> 'Bool':
     """(A x: ~c)  ==  ~(E x: c)"""
     return (not is_neg(p)) \
         or (all(ev(p, bind(rho, v, x)) for x in s) == (not any(ev(p.operand, bind(rho, v, x)) for x in s)))
+
+
+# ---- conjunction of a list (work lists of split_and)
+
+def _pat8(s, c, rho):
+    return conj(s + (c,), rho)
+
+
+@lemma(induction_on='s', auto=('conj',), patterns=_pat8)
+def conj_snoc(s: 'Seq[Expr]', c: 'Expr', rho: 'Env') -> 'Bool':
+    return conj(s + (c,), rho) == (conj(s, rho) and ev(c, rho))
+
+
+def _pat9(s, t, rho):
+    return conj(s + t, rho)
+
+
+@lemma(induction_on='s', auto=('conj',), patterns=_pat9)
+def conj_append(s: 'Seq[Expr]', t: 'Seq[Expr]', rho: 'Env') -> 'Bool':
+    return conj(s + t, rho) == (conj(s, rho) and conj(t, rho))
+
+
+def _pat10(u, rho):
+    return conj(u, rho)
+
+
+@lemma(auto=('conj',), patterns=_pat10)
+def conj_unit(u: 'Seq[Expr]', rho: 'Env') -> 'Bool':
+    return len(u) != 1 or conj(u, rho) == ev(u[0], rho)
+
+
+def _conj_last_hint(s, rho):
+    if len(s) > 0:
+        conj_snoc(s[:-1], s[-1], rho)
+
+
+@lemma(hint=_conj_last_hint)
+def conj_last(s: 'Seq[Expr]', rho: 'Env') -> 'Bool':
+    return len(s) == 0 or (s[:-1] + (s[-1],) == s and conj(s, rho) == (conj(s[:-1], rho) and ev(s[-1], rho)))
+
+
+@lemma()
+def conj_last_all(s: 'Seq[Expr]') -> 'Bool':
+    """closed form of conj_last (usable as a loop hint, where no valuation can be named)"""
+    return len(s) == 0 or forall_env(lambda rho: conj(s, rho) == (conj(s[:-1], rho) and ev(s[-1], rho)))
